@@ -88,7 +88,7 @@ pub fn run_task(prop: &str, tier: &str, phase: usize, task: usize) -> Vec<oracle
         return Vec::new();
     }
     let journal = Arc::new(journal::Journal::anonymous());
-    let mut ck = oracle::Checker::new(prop, p.armed, call::Caller::new(journal.slot(0), 1 << 21, 400_000));
+    let mut ck = oracle::Checker::new(prop, p.armed, call::Caller::new(journal.slot(0), (1 << 22) + (1 << 16), 800_000));
     ck.limit = 64;
     for (i, t) in ph.tasks.iter().enumerate() {
         if task == usize::MAX || task == i {
@@ -112,7 +112,7 @@ pub fn run_sequential(prop: &str, tier: &str, last: usize) -> Vec<oracle::Violat
         None => return Vec::new(),
     };
     let journal = Arc::new(journal::Journal::anonymous());
-    let mut ck = oracle::Checker::new(prop, p.armed, call::Caller::new(journal.slot(0), 1 << 21, 400_000));
+    let mut ck = oracle::Checker::new(prop, p.armed, call::Caller::new(journal.slot(0), (1 << 22) + (1 << 16), 800_000));
     ck.limit = 8;
     'all: for (pi, ph) in p.phases.iter().enumerate().take(last + 1) {
         if !ph.backend.force() {
@@ -162,8 +162,8 @@ fn run(args: &[String]) {
         armed: p.armed,
         threads,
         wall_cap: Duration::from_secs(cap),
-        max_input: 1 << 21,
-        max_headers: 400_000,
+        max_input: (1 << 22) + (1 << 16),
+        max_headers: 800_000,
     };
     // denominator of the transition coverage: what the trees' alphabets can reach at any depth
     let mut reach = std::collections::HashSet::new();
